@@ -135,7 +135,10 @@ def _planes_of(s):
 
 @st.composite
 def case_strategy(draw, ctx):
-    shape = list(draw(st.sampled_from(SHAPES)))
+    # Hypothesis' first example is the all-minimal one: rotate the menus per (seed, shard, lane) so that the workers
+    # of one run do not all spend an example on the same case
+    rot = int(getattr(ctx, "seed", 0)) * 7 + int(getattr(ctx, "shard", 0)) * 4 + (2 if getattr(ctx, "lane", "") == "f32" else 0)
+    shape = list(SHAPES[(draw(st.integers(0, len(SHAPES) - 1)) + rot) % len(SHAPES)])
     steps = draw(st.integers(10, 30))
     faces = draw(scenes.faces_strategy(kinds=("none", "pec", "pmc", "periodic", "pml", "pml"), pml_thickness=(2, 4)))
     _fit_pml(shape, faces, 5)
@@ -146,7 +149,7 @@ def case_strategy(draw, ctx):
     sources = []
     for i in range(n_src):
         kinds = TFSF if i == 0 else TFSF + ("dipole_e", "dipole_m", "dipole_e", "dipole_m")
-        k = draw(st.sampled_from(kinds))
+        k = kinds[(draw(st.integers(0, len(kinds) - 1)) + rot // 3 + i) % len(kinds)]
         if k == "tfsf_region":
             s = draw(_region_source(shape, faces, interior, f"src{i}"))
         else:
